@@ -2460,9 +2460,9 @@ func isPunct(l lx) bool { return l.typ == tokenizers.Symbol && (l.s == "(" || l.
 
 func TestVerifReplay(t *testing.T) {
 	W, I, F, Q, S, K, C := tokenizers.Word, tokenizers.Integer, tokenizers.Float, tokenizers.Quoted, tokenizers.Symbol, tokenizers.Keyword, tokenizers.Comment
-	genericPool := []lx{{"abc", W}, {"x_1", W}, {"éa", W}, {"юж", W}, {"12", I}, {"-7", I}, {"1.5", F}, {"-0.25", F}, {"'a b'", Q}, {"\"q'r\"", Q},
+	genericPool := []lx{{"abc", W}, {"x_1", W}, {"éa", W}, {"юж", W}, {"naÿve", W}, {"ÿÀ", W}, {"12", I}, {"-7", I}, {"1.5", F}, {"-0.25", F}, {"'a b'", Q}, {"\"q'r\"", Q},
 		{"<=", S}, {"<>", S}, {">=", S}, {"<", S}, {"(", S}, {")", S}, {",", S}, {"+", S}, {"=", S}}
-	exprPool := []lx{{"abc", W}, {"x_1", W}, {"éa", W}, {"AND", K}, {"and", K}, {"Not", K}, {"nULL", K}, {"is", K}, {"IN", K}, {"like", K}, {"TRUE", K}, {"xor", K},
+	exprPool := []lx{{"abc", W}, {"x_1", W}, {"éa", W}, {"ÿzÀ", W}, {"/** d **/", C}, {"/* a*b **/", C}, {"/***/", C}, {"AND", K}, {"and", K}, {"Not", K}, {"nULL", K}, {"is", K}, {"IN", K}, {"like", K}, {"TRUE", K}, {"xor", K},
 		{"12", I}, {"1.5", F}, {"1e3", F}, {"2.5E-2", F}, {"'it''s'", Q}, {"'a\nb ю'", Q}, {"\"q\"\"r\"", W},
 		{"<=", S}, {">=", S}, {"<>", S}, {"!=", S}, {"<<", S}, {">>", S}, {"<", S}, {"-", S}, {"(", S}, {")", S}, {"[", S}, {",", S}, {"/* c */", C}}
 	run := func(name string, mk func() tokenizers.ITokenizer, pool []lx, depth int) {
@@ -2504,7 +2504,7 @@ class LexemeFamily(Family):
 
     @classmethod
     def bounded_source(cls, prog, fname):
-        return 'test/calculator', cls.source(), ('all sequences of up to 3 lexemes over 19 (generic tokenizer) and 32 (expression tokenizer) lexemes of every class - identifiers incl. non-Latin, '
+        return 'test/calculator', cls.source(), ('all sequences of up to 3 lexemes over 21 (generic tokenizer) and 36 (expression tokenizer) lexemes of every class - identifiers incl. non-Latin, '
                                                  'keywords in mixed case, integers, decimals, scientific notation, quoted strings with doubled quotes and line breaks, comments, every '
                                                  'multi-character symbol - separated by one blank, and unseparated next to brackets and commas')
 
